@@ -61,7 +61,10 @@ _Bool nondet__Bool(void);
 /* largest object size considered (cbmc addresses objects with 56 offset bits; sizes beyond 2^40
  * bytes are of no practical interest).  Proofs do not unwind up to it: loops are closed by invariants. */
 #ifdef WITNESS_MODE
-#define VC_MAXOBJ 6
+#ifndef VC_WIT_MAXOBJ
+#define VC_WIT_MAXOBJ 6
+#endif
+#define VC_MAXOBJ VC_WIT_MAXOBJ
 #else
 #define VC_MAXOBJ ((size_t)1 << 40)
 #endif
